@@ -88,6 +88,7 @@ TABLE = {
     "qpoints": ("QPOINTS", "--qpoints", "value"), "writedm": ("WRITEDM", "--writedm", "true"),
     "dos": ("DOS", "--dos", "true"), "sigma": ("SIGMA", "--sigma", "value"), "fmin": ("FMIN", "--fmin", "value"), "fmax": ("FMAX", "--fmax", "value"), "fpitch": ("FPITCH", "--fpitch", "value"),
     "pdos": ("PDOS", "--pdos", "value"), "xyz_projection": ("XYZ_PROJECTION", "--xyz-projection", "true"),
+    "dos_range": ("DOS_RANGE", None, "value"), "projection_direction": ("PROJECTION_DIRECTION", "--pd", "value"), "gv_delta_q": ("GV_DELTA_Q", "--gv-delta-q", "value"),
     "tprop": ("TPROP", "-t", "true"), "tmin": ("TMIN", "--tmin", "value"), "tmax": ("TMAX", "--tmax", "value"), "tstep": ("TSTEP", "--tstep", "value"),
     "cutoff_freq": ("CUTOFF_FREQUENCY", "--cutoff-freq", "value"), "pretend_real": ("PRETEND_REAL", "--pr", "true"),
     "nac": ("NAC", "--nac", "true"), "nac_method": ("NAC_METHOD", "--nac-method", "value"), "q_direction": ("Q_DIRECTION", "--q-direction", "value"),
@@ -195,6 +196,8 @@ def gen_post_step(rng, w, has_born, prev_wrote_fc, force_cmd=None):
             s["sigma"] = rng.choice([0.1, 0.25])
         if rng.random() < 0.5:
             s["fmin"], s["fmax"], s["fpitch"] = 0.0, rng.choice([8.0, 10.0]), rng.choice([0.5, 0.25])
+            if rng.random() < 0.35:
+                s["dos_range"] = "%s %s %s" % (s.pop("fmin"), s.pop("fmax"), s.pop("fpitch"))
     elif mode == "pdos":
         nprim = len(CRYSTALS[w.name]["symbols"])
         s["pdos"] = rng.choice(["1", "1 2" if nprim > 1 else "1"])
@@ -203,6 +206,10 @@ def gen_post_step(rng, w, has_born, prev_wrote_fc, force_cmd=None):
         if rng.random() < 0.5:
             s["sigma"] = 0.2
         s["fmin"], s["fmax"], s["fpitch"] = 0.0, 9.0, 0.5
+        if rng.random() < 0.3:
+            s["dos_range"] = "%s %s %s" % (s.pop("fmin"), s.pop("fmax"), s.pop("fpitch"))
+        if "xyz_projection" not in s and rng.random() < 0.3:
+            s["projection_direction"] = rng.choice(["1 0 0", "0 0 1", "1 1 0", "1 -1 2"])
     elif mode == "tprop":
         s["tprop"] = True
         s["tmin"], s["tmax"], s["tstep"] = rng.choice([0, 50]), rng.choice([300, 500]), rng.choice([50, 100])
@@ -237,6 +244,8 @@ def gen_post_step(rng, w, has_born, prev_wrote_fc, force_cmd=None):
             s["q_direction"] = rng.choice(["1 0 0", "0 0 1", "1 1 0"])
             if "0 0 0" not in s["qpoints"]:
                 s["qpoints"] = "0 0 0  " + s["qpoints"]  # the direction only matters at the zone centre
+    if s.get("gv") and cmd == "phonopy" and rng.random() < 0.35:
+        s["gv_delta_q"] = rng.choice(["0.0001", "0.001"])  # phonopy command only: phonopy.load() has no such argument
     if rng.random() < 0.1:
         s["factor"] = 521.47083
     if rng.random() < 0.1:
@@ -366,6 +375,8 @@ def _ref_object(spec, s, path, cmd):
     smat = [int(x) for x in spec["dim"].split()]
     smat = np.diag(smat) if len(smat) == 3 else np.reshape(smat, (3, 3))
     pa = spec["pa"]
+    if "gv_delta_q" in s:
+        kw["group_velocity_delta_q"] = float(s["gv_delta_q"])
     ph = Phonopy(cell, supercell_matrix=smat, primitive_matrix=(pa.lower() if pa == "AUTO" else pa), calculator=(None if calc == "vasp" else calc), **kw)
     nac = bool(s.get("nac", False))
     if nac and os.path.exists("BORN"):
@@ -433,6 +444,8 @@ def child_reference(args):
         out.update(q=qs, freq=d["frequencies"], gv=d.get("group_velocities"), dm=d.get("dynamical_matrices"))
     elif mode in ("dos", "pdos"):
         kw = dict(sigma=s.get("sigma"), freq_min=s.get("fmin"), freq_max=s.get("fmax"), freq_pitch=s.get("fpitch"), use_tetrahedron_method=("sigma" not in s))
+        if "dos_range" in s:
+            kw["freq_min"], kw["freq_max"], kw["freq_pitch"] = [float(x) for x in s["dos_range"].split()]
         if mode == "dos":
             ph.run_mesh(mesh, **mkw)
             ph.run_total_dos(**kw)
@@ -440,6 +453,8 @@ def child_reference(args):
             out.update(x=d["frequency_points"], dos=d["total_dos"])
         else:
             ph.run_mesh(mesh, with_eigenvectors=True, is_mesh_symmetry=False, is_gamma_center=mkw["is_gamma_center"], shift=mkw.get("shift"))
+            if "projection_direction" in s:
+                kw["direction"] = [float(x) for x in s["projection_direction"].split()]
             ph.run_projected_dos(xyz_projection=bool(s.get("xyz_projection")), **kw)
             d = ph.get_projected_dos_dict()
             out.update(x=d["frequency_points"], pdos=d["projected_dos"])
@@ -947,7 +962,7 @@ def shrink_candidates(spec):
         yield dict(spec, stale=[])
     for i, st in enumerate(spec["steps"]):
         for k in list(st["settings"]):
-            if k in ("mesh", "band", "qpoints", "dos", "pdos", "tprop", "writefc", "readfc", "tdisp", "cutoff_freq", "fmin", "band_points"):
+            if k in ("mesh", "band", "qpoints", "dos", "pdos", "tprop", "writefc", "readfc", "tdisp", "cutoff_freq", "fmin", "band_points", "dos_range"):
                 continue  # mode-defining or conditioning settings (removing a cut-off creates a different, ill-conditioned case)
             ns = dict(st["settings"])
             ns.pop(k)
